@@ -135,7 +135,7 @@ impl<'a> Cur<'a> {
             b"TextFont" => Op::TextFont { name: self.name()?, size: self.fl()? },
             b"TextRenderMode" => Op::TextRenderMode { mode: match self.int()? {
                 0 => TextMode::Fill, 1 => TextMode::Stroke, 2 => TextMode::FillThenStroke, 3 => TextMode::Invisible,
-                4 => TextMode::FillAndClip, 5 => TextMode::StrokeAndClip, _ => return Err("canon: text mode".into()) } },
+                4 => TextMode::FillAndClip, 5 => TextMode::StrokeAndClip, 6 => TextMode::FillThenStrokeAndClip, 7 => TextMode::Clip, _ => return Err("canon: text mode".into()) } },
             b"TextRise" => Op::TextRise { rise: self.fl()? },
             b"MoveTextPosition" => Op::MoveTextPosition { translation: self.point()? },
             b"SetTextMatrix" => Op::SetTextMatrix { matrix: self.matrix()? },
